@@ -30,12 +30,16 @@ inductive Ev
   | issued (t : Tok)
   | expired (label : String)
   /-- `iss` = the issuer the request was addressed to; `tok` = label of the genuine token the presented string stands for
-      ("" = none: forged, tampered, garbage, foreign key) -/
-  | userinfo (iss tok : String) (status : Nat) (subject : Option String)
+      ("" = none: forged, tampered, garbage, foreign key); `subject` = the `sub` member of a 2xx answer; `claims` = the 2xx answer
+      carries claims at all (its JSON body has a member) -/
+  | userinfo (iss tok : String) (status : Nat) (subject : Option String) (claims : Bool := subject.isSome)
   | introspect (iss : String) (p : C04.Presented) (tok : String) (status : Nat) (active : Bool) (members : List String)
   /-- `fault`: a storage call of this request was made to fail (an input of the history, like the clock);
-      `effect`: after the request the storage no longer holds the token as usable (its record is revoked / removed / expired) -/
+      `usable`: immediately before the request the provider honoured the presented string (userinfo at the token's own issuer answered 2xx);
+      `effect`: after the request the storage no longer holds the token as usable (its record is revoked / removed / expired), or the
+      provider does not honour the string -/
   | revoke (iss : String) (p : C04.Presented) (tok : String) (status : Nat) (performed : Bool) (fault : Bool := false) (effect : Bool := true)
+      (usable : Bool := true)
   | endSession (iss subject client : String) (status : Nat) (terminated : Bool)
   /-- `hasActor`: the request also carried an actor_token (delegation); `actor` = label of the genuine token it stands for ("" = none) -/
   | exchange (iss tok : String) (success : Bool) (hasActor : Bool := false) (actor : String := "")
@@ -71,13 +75,18 @@ def honourable (m : MonState) (now : Int) (ep unknown dead iss tok : String) (wa
 def judge (m : MonState) (now : Int) (e : Ev) : Option String :=
   match e with
   | .issued _ | .expired _ => none
-  | .userinfo iss tok status subject =>
-    match subject with
-    | some sub =>
+  | .userinfo iss tok _ subject claims =>
+    -- "UserInfo returns claims only for a token the provider actually issued that is neither expired, revoked nor ...": judged is every
+    -- answer that carries claims (any member, not only `sub`).  A 2xx answer WITHOUT claims (the body `{}` of a token that was granted no
+    -- scope with claims, e.g. one issued by a token exchange without `scope`) returns nothing and is not judged
+    if claims || subject.isSome then
       match honourable m now "userinfo" ":claims-for-unknown-token" ":dead-token-honoured" iss tok true with
       | some v => some v
-      | none => if (find m tok).any (·.subject != sub) then some "userinfo:wrong-subject" else none
-    | none => if status ≥ 200 ∧ status < 300 then some "userinfo:2xx-without-claims" else none
+      | none =>
+        match subject with
+        | some sub => if (find m tok).any (·.subject != sub) then some "userinfo:wrong-subject" else none
+        | none => none
+    else none
   | .introspect iss p tok _ active members =>
     if active then
       match honourable m now "introspect" ":active-for-unknown-token" ":dead-token-active" iss tok true with
@@ -87,7 +96,7 @@ def judge (m : MonState) (now : Int) (e : Ev) : Option String :=
         | none => some "introspect:unauthenticated-caller"
         | some c => if (find m tok).any (!·.audience.contains c.id) then some "introspect:caller-not-in-audience" else none
     else if members != [] && members != ["active"] then some "introspect:inactive-answer-discloses-fields" else none
-  | .revoke iss p tok status performed fault effect =>
+  | .revoke iss p tok status performed fault effect usable =>
     -- (a storage fault excuses an error answer, never a success answer: what was answered 200 has taken effect, see `update`)
     match find m tok with
     | none => if (callerOf m now p true).isSome && status != 200 && !fault then some "revoke:unknown-token-not-200" else none
@@ -99,9 +108,12 @@ def judge (m : MonState) (now : Int) (e : Ev) : Option String :=
         if c.id == t.client then
           (if status != 200 && !fault then some "revoke:owner-refused"            -- whatever the hint
            -- what was answered 200 has taken effect: the owner's revocation of a token that was still usable leaves it unusable
-           else if status == 200 && t.live && !lastSecond t now && !effect then some "revoke:answered-200-without-effect"
+           -- (`usable`: a token the provider honours nowhere - before and after - is unusable "from then on" whatever the storage holds)
+           else if status == 200 && t.live && !lastSecond t now && usable && !effect then some "revoke:answered-200-without-effect"
            else none)
-        else if status == 200 && t.live && !lastSecond t now then some "revoke:foreign-client-not-refused" else none
+        -- another client's attempt on a token that is in use is refused; on a string the provider honours nowhere it is an attempt
+        -- on an unknown token ("revoking an unknown or garbage token still answers 200")
+        else if status == 200 && t.live && !lastSecond t now && usable then some "revoke:foreign-client-not-refused" else none
   | .endSession _ _ _ status terminated => if status < 400 && !terminated then some "end_session:session-not-terminated" else none
   | .exchange iss tok success hasActor actor =>
     if success then
@@ -124,7 +136,7 @@ def update (m : MonState) (now : Int) (e : Ev) : MonState :=
   match e with
   | .issued t => { m with toks := m.toks ++ [t] }
   | .expired l => kill m (·.label == l)
-  | .revoke iss p tok status _ _ _ =>
+  | .revoke iss p tok status _ _ _ _ =>
     match find m tok, callerOf m now p true with
     | some t, some c =>
       if c.id == t.client && status == 200 && t.issuer == iss then
